@@ -238,7 +238,7 @@ _MA = pick(3, 4)
 _NAMES_A = pick(("a", "b", "c", "ctx"), _REQ_NAMES)  # quick: an undeclared name is 'c'/'b' (when n < 3) or 'ctx'
 
 
-@cond(q=60, t=600, encoded=ENCODED, stubs=_STUBS, replay=lambda a: _replay_a(a), signature=lambda a, c: "C06:shape:decision-differs",
+@cond(q=100, t=600, encoded=ENCODED, stubs=_STUBS, replay=lambda a: _replay_a(a), signature=lambda a, c: "C06:shape:decision-differs",
       bound="declared: 0..3 int parameters a,b,c with symbolic type token (3), nullable flag, all-or-none defaulted; request: 0..%d columns, name in %r, type token (3), nullable flag; all values non-null" % (_MA, _NAMES_A))
 def shape_accepted_iff_columns_match(n: int, alldef: bool, dnull: tuple[bool, bool, bool], dtok: tuple[int, int, int],
                                      m: int, rname: tuple[int, int, int, int], rtok: tuple[int, int, int, int], rnull: tuple[bool, bool, bool, bool]) -> bool:
@@ -254,7 +254,7 @@ def shape_accepted_iff_columns_match(n: int, alldef: bool, dnull: tuple[bool, bo
 _NB = pick(2, 3)
 
 
-@cond(q=60, t=300, encoded=ENCODED, stubs=_STUBS, replay=lambda a: _replay_b(a), signature=lambda a, c: "C06:values:decision-differs",
+@cond(q=100, t=300, encoded=ENCODED, stubs=_STUBS, replay=lambda a: _replay_b(a), signature=lambda a, c: "C06:values:decision-differs",
       bound="0..%d parameters, each optional-or-not x enum-or-int typed x defaulted-or-not x value None / valid / unknown enum member; request columns equal to the declared ones" % _NB)
 def values_accepted_iff_non_null_and_members(n: int, dopt: tuple[bool, bool, bool], ddef: tuple[bool, bool, bool], den: tuple[bool, bool, bool], rval: tuple[int, int, int]) -> bool:
     """
@@ -269,7 +269,7 @@ _NC = pick(1, 2)
 _NAMES_C = pick(("a", "ctx", "z"), _REQ_NAMES)
 
 
-@cond(q=60, t=600, encoded=ENCODED, stubs=_STUBS, replay=lambda a: _replay_c(a), signature=lambda a, c: "C06:pipeline:decision-differs",
+@cond(q=100, t=600, encoded=ENCODED, stubs=_STUBS, replay=lambda a: _replay_c(a), signature=lambda a, c: "C06:pipeline:decision-differs",
       bound="full pipeline, everything symbolic: 0..%d parameters (optional, defaulted, enum/int, 3 type tokens) x 0..2 request columns (name in %r, 3 type tokens, nullable flag, value None/valid/unknown member)" % (_NC, _NAMES_C))
 def request_accepted_iff_conforming(n: int, dopt: tuple[bool, bool, bool], ddef: tuple[bool, bool, bool], den: tuple[bool, bool, bool], dtok: tuple[int, int, int],
                                     m: int, rname: tuple[int, int], rtok: tuple[int, int], rnull: tuple[bool, bool], rval: tuple[int, int]) -> bool:
@@ -553,11 +553,15 @@ def _route_run(seq: tuple, route: int, inner: pa.RecordBatch):  # type: ignore[n
     return invoked, exc
 
 
+_MIN_UNPERTURBED = pick(2, 0)  # quick: reordering plus at most one of {retype, nullability flip, field-set change}; thorough: all combinations
+
+
 @cond(q=60, t=240, encoded=[wire._read_request] + ENCODED, stubs=_ROUTE_STUBS, replay=lambda a: _replay_route(a), signature=lambda a, c: "C06:delivery-route:validated-schema-is-not-the-kwargs-schema",
-      bound="declared m(a: int, b: float, c: str | None); delivery route inline / shm (static segment) / shm (attached segment) / external location x real batch = 6 column orders x one-or-no column retyped x one-or-no column nullability-flipped x field set same / extra / missing / renamed (1536 requests)")
+      bound="declared m(a: int, b: float, c: str | None); delivery route inline / shm (static segment) / shm (attached segment) / external location x real batch = 6 column orders x one-or-no column retyped x one-or-no column nullability-flipped x field set same / extra / missing / renamed (quick: at most one of the three perturbations besides reordering = 240 requests; thorough: all 1536)")
 def validated_columns_are_the_delivered_columns(route: int, perm: int, retype: int, nullflip: int, fieldset: int) -> bool:
     """
     pre: 0 <= route <= 3 and 0 <= perm <= 5 and 0 <= retype <= 3 and 0 <= nullflip <= 3 and 0 <= fieldset <= 3
+    pre: (retype == 3) + (nullflip == 3) + (fieldset == 0) >= _MIN_UNPERTURBED
     post: _
     """
     r = _concrete(route, 4)
